@@ -2199,11 +2199,22 @@ def _patch_exec():
         if s.exc is None:
             return ctx.exc("<reraise>", st, s)
         e = s.exc
+        # raise X.with_traceback(tb) raises X
+        while isinstance(e, ast.Call) and isinstance(e.func, ast.Attribute) and e.func.attr == "with_traceback":
+            e = e.func.value
         name = None
-        if isinstance(e, ast.Call):
+        if isinstance(e, ast.Name) and e.id in st.env:
+            # a variable holding an exception instance: its class is known only when it was bound by `except C as v`
+            h = st.env[e.id].hint or ""
+            name = h[4:] if h.startswith("exc:") else "BaseException"
+        elif isinstance(e, ast.Call):
             name = ast.unparse(e.func).split(".")[-1]
+            if name == "instance":        # exc.DBAPIError.instance(...): a DBAPIError (subclass)
+                name = ast.unparse(e.func).split(".")[-2]
         elif isinstance(e, (ast.Name, ast.Attribute)):
             name = ast.unparse(e).split(".")[-1]
+        elif isinstance(e, ast.Subscript):
+            name = "BaseException"        # e.g. raise exc_info[1]
         if name is None:
             raise OutOfSubset("raise of a computed exception")
         ctx.exc(name, st, s)
@@ -2225,6 +2236,11 @@ def _patch_exec():
             if self.is_pure(tgt.value, st):
                 b = self.pev(tgt.value, st, Mode(False, None, None))
                 fty = self.lookup_field_type(CLASSES[b.hint], tgt.attr) if b.kind == "v" and b.hint in CLASSES else None
+                if b.kind == "v" and b.hint in CLASSES and tgt.attr in CLASSES[b.hint].class_defaults:
+                    # the instance attribute shadows a class-level default: after `del` reads see the default again
+                    dv = CLASSES[b.hint].class_defaults[tgt.attr]
+                    dsv = sv_bool(dv) if isinstance(dv, bool) else (sv_int(dv) if isinstance(dv, int) else NONE)
+                    return self.assign(tgt, dsv, st, ctx, ctx.k)
                 if fty is not None and fty.startswith("maybe:"):
                     # del of an attribute that may be absent: AttributeError when it is
                     cur = self.hget(st, tgt.attr, b.t)
@@ -2994,6 +3010,10 @@ def _patch_calls():
             if tgt.startswith("havoc:"):
                 # unknown side-effect-free-on-modelled-state call returning an unconstrained value of the given type
                 def hv(svs, st2):
+                    if tgt[6:] in CLASSES and not CLASSES[tgt[6:]].isa:
+                        # an unknown call returning a (new) instance of a contract class: allocated, not None
+                        r0, st2 = self.alloc_obj(st2, tgt[6:], "r")
+                        return k(r0, st2)
                     r = self.fresh_sv("r", tgt[6:])
                     if r.kind == "v" and HAS_MAYBE_FIELDS():
                         st2 = st2.assume(r.t != L.sentinel("deleted_attr"))
